@@ -52,12 +52,18 @@ func noteWeak(site string) {
 	}
 }
 
+// The surviving bits are taken from a re-mixed value, not from the hash itself:
+// the low k bits of FNV-1a depend only on the low k bits of the bytes hashed
+// (xor and multiplication by an odd prime never carry downwards), so two texts
+// that differ in one character - the near-duplicates a workload is full of -
+// would never collide in them.
 func Weak32(h uint32, site string) uint32 {
 	if weakBits == 0 || weakBits >= 32 {
 		return h
 	}
 	noteWeak(site)
-	return h & (1<<weakBits - 1)
+	x := uint64(h)
+	return uint32(splitmix(&x)) & (1<<weakBits - 1)
 }
 
 func Weak64(h uint64, site string) uint64 {
@@ -65,7 +71,8 @@ func Weak64(h uint64, site string) uint64 {
 		return h
 	}
 	noteWeak(site)
-	return h & (1<<weakBits - 1)
+	x := h
+	return splitmix(&x) & (1<<weakBits - 1)
 }
 
 func WeakPrime32(site string) uint32 {
